@@ -171,6 +171,11 @@ fn container_set(sub: &str, thorough: bool) -> Vec<(String, String, Comp, Packag
             v.push(("wide-lzma-sep".into(), "wide".into(), Comp::Lzma(1), Packaging::NoConcat, false));
         }
     }
+    // concat of the separate files with the originals left beside it (the packs are reachable
+    // both inside the file at hand and at their recorded locations)
+    if sub == "c04" {
+        v.push(("multi-zstd-beside".into(), "multi".into(), Comp::Zstd(5), Packaging::NoConcat, true));
+    }
     // concat of the three separate files
     v.push(("multi-zstd-concat".into(), "multi".into(), Comp::Zstd(5), Packaging::NoConcat, true));
     if thorough {
@@ -204,10 +209,14 @@ fn build_set(base: &Path, sub: &str, thorough: bool) -> Result<Vec<ContainerDesc
             let outp = dir.join("cat.jbk");
             let up = camino::Utf8PathBuf::from_path_buf(outp.clone()).unwrap();
             jubako::tools::concat(&c.files, &up).map_err(|e| format!("concat: {e}"))?;
-            for f in &c.files {
-                let _ = std::fs::remove_file(f);
+            if !name.ends_with("-beside") {
+                for f in &c.files {
+                    let _ = std::fs::remove_file(f);
+                }
+                files = vec!["cat.jbk".into()];
+            } else {
+                files.insert(0, "cat.jbk".into());
             }
-            files = vec!["cat.jbk".into()];
         }
         if sub == "c04" || (sub == "c05" && shape_name != "huge" && shape_name != "many" && shape_name != "wide") {
             // CRC block map from the independent Python decoder
@@ -399,6 +408,11 @@ fn enumerate(sub: &str, thorough: bool, set: &[Loaded]) -> Vec<Case> {
     for (ci, l) in set.iter().enumerate() {
         for (fi, buf) in l.bytes.iter().enumerate() {
             let n = buf.len();
+            if l.desc.name.ends_with("-beside") && fi > 0 {
+                // the separate files left beside a concat output only have to be there: the file
+                // at hand holds every pack, damage in the copies beside it is not read
+                continue;
+            }
             match sub {
                 "c04" => {
                     let bigc = l.desc.shape == "big";
@@ -1271,7 +1285,7 @@ fn main() {
                 match &f {
                     Fate::Done(v) if v["ms"].as_u64().unwrap_or(0) < 200 => {}
                     Fate::Done(v) => eprintln!("case {i}: slow {} ms", v["ms"]),
-                    _ => eprintln!("case {i}: {f:?}"),
+                    _ => eprintln!("case {i}: {f:?} {}", case_json(&cases[i])),
                 }
             }
             fates.lock().unwrap()[i] = Some(f);
